@@ -339,6 +339,10 @@ func dirFiles() map[string]string {
 		m[fmt.Sprintf("%02d_f%d.sql", i, i)] = fmt.Sprintf("CREATE TABLE t%d (id int);\n", i)
 	}
 	m["05_f5.sql"] = "-- atlas:sum ignore\nSELECT 5;\n"
+	// several files sharing one version (created in the same second / a schema directory app_1.sql, app_2.sql).
+	for _, n := range []string{"07_f7_idx.sql", "07_f7_more.sql", "app_1_tables.sql", "app_2_indexes.sql", "app_3_views.sql"} {
+		m[n] = "CREATE TABLE x_" + strings.NewReplacer(".", "_").Replace(n) + " (id int);\n"
+	}
 	return m
 }
 
